@@ -27,6 +27,7 @@ def families(tier):
         fam['single_abc_dyadic'] = lambda: R.family_single([1.0, 0.5, 0.25, 0.125, 0.0625, 0.3], 3, [0.5], patterns=['ABC', 'AAB', 'ABA', 'ABB', 'AAA'])
         fam['pairs_quick'] = lambda: R.family_multi(R.V_QUICK, 2, [0.5, 0.25, 0.3], 2)
         fam['triples_tiny'] = lambda: R.family_multi(R.V_TINY, 2, [0.5, 0.25], 3)
+        fam['single_4vars'] = lambda: R.family_single([1.0, 0.5, 0.25, 0.3], 2, [0.5], patterns=R.PATTERNS4)
         fam['pairs_abc'] = lambda: R.family_multi([0.5, 0.25, 0.3], 2, [0.5, 0.25], 2, max_vars=3, type_names='AB')
     return fam
 
@@ -61,7 +62,7 @@ def bounds(tier):
     return {
         'families': sorted(families(tier)),
         'values': {'quick': R.V_QUICK, 'full': R.V_FULL, 'tiny': R.V_TINY, 'underflow': R.V_UNDER},
-        'max_variables_per_structure': 3, 'max_groups_per_type': 3,
+        'max_variables_per_structure': 4 if tier == 'thorough' else 3, 'max_groups_per_type': 3,
         'max_base_structures': 3 if tier == 'thorough' else 2,
         'run': 'every ruleset is run to exhaustion; every prefix (state after each pop) is checked',
     }
